@@ -884,7 +884,7 @@ func bucket(n int) string {
 func Run(args []string) {
 	thorough := vh.Tier() == "thorough"
 	cfg := &config{seed: vh.Seed(), maxLen: vh.Pick(600, 4096), truncAll: thorough}
-	n := int64(vh.Pick(20000, 1200000))
+	n := int64(vh.Pick(40000, 2000000))
 	src := "/repo"
 	replay := int64(-1)
 	show, shown := "", 0
